@@ -63,7 +63,7 @@ class GW(OW):
                 else: v = b""
                 tmpl.append([t, "x", v.hex()])
             elif x < 0.8:
-                t = r.choice(SAFE)
+                t = r.choice(SAFE + [K.CKA_ID, K.CKA_ID, K.CKA_ID])      # CKA_ID is the attribute some keys hold only as a default
                 if t in BOOLS: v = bytes([r.choice([0, 1, 1, 2])])
                 elif t in ULONGS: v = r.choice([0, 1, 2, 3, 4, 16, 21, 31]).to_bytes(8, "little")
                 else: v = r.choice([b"", b"ab", b"\x01", b"app0", b"app1", b"zz"])
@@ -74,6 +74,12 @@ class GW(OW):
                 cands = [t for t in o2.attrs if t in SAFE]
                 if cands:
                     t = r.choice(cands); tmpl.append([t, "x", o2.attrs[t].hex()])
+        if r.random() < 0.1:
+            # two entries with the SAME value, the second on an attribute the object holds only as its (empty) default: whatever the first comparison leaves
+            # behind must not decide the second
+            lacking = [o for o in pool if K.CKA_ID not in o.attrs and K.CKA_LABEL in o.attrs and int.from_bytes(o.attrs.get(K.CKA_CLASS, b"\xff"), "little") in KEY_CLASSES]
+            if lacking:
+                o3 = r.choice(lacking); tmpl = [[K.CKA_LABEL, "x", o3.attrs[K.CKA_LABEL].hex()], [K.CKA_ID, "x", o3.attrs[K.CKA_LABEL].hex()]]
         nvis = len(self.w.visible(pid, s.ref))
         b = r.choice([[], [], [1], [2], [1, 2], [0, 3], [max(nvis - 1, 1)], [max(nvis, 1)], [nvis + 1], [1, 0, 1], [3, 1]])
         self.emit({"act": "find", "s": s.ref, "tmpl": tmpl, "batches": b}, tid)
